@@ -7,10 +7,13 @@ from props import rwcommon as rc
 ID = "C01"
 PROP_FILE = "props/C01.v"
 COQ_TARGETS = ["props/C01.v"]
-THEOREMS = ["C01_erase_sound", "C01_erase_any", "C01_rw_frag", "C01_rw_frag_certified"]
+THEOREMS = ["C01_erase_sound", "C01_erase_any", "C01_rw_frag", "C01_rw_frag_certified", "C01_frag_semantics"]
 TRUSTED_BASE = [
     "Coq 8.16.1 kernel, vm_compute for the per-program erasure certificates",
     "tools/impl/astexport.py (AST -> Coq term, interning, id canonicalisation), tools/translators/gen_pyast.py + gen_events.py",
+    "model/FragSem.v (typed rewriter `instr_module`, evaluator under observing handlers, reference stream; Python-like primitives on ints / bools / None), tied by "
+    "K-sem: per fragment program the real rewriter's output tree = tt_module (instr_module c m), and exception type, final bindings and recorded event stream of "
+    "the real run = the evaluator's (tools/impl/c01_sem.py)",
     "the laws of proofs/EraseSound.v (Section hypotheses): facts about Python's evaluation that the instrumentation shapes rely on; validated on CPython by the differential oracle, not proved",
 ]
 ASSUMPTIONS = ["handlers are observing; the program mentions no _X5ix name and does not rebind slice / BaseException / NameError"]
@@ -169,10 +172,13 @@ def run(ctx, model_ok, deferred=False, only_deferred=False, n_quick=120, extra_c
         for e in c["events"]:
             hist[e] = hist.get(e, 0) + 1
     ksyn = (0, 0)
+    ksem = (0, 0, {})
     if model_ok and ctx.prop == "C01":
         # the Gallina model of the rewriter on the fragment (model/RwFrag.v, theorem C01_rw_frag) against the real rewriter
         from props import rwfrag
         ksyn = rwfrag.check(ctx, rng, 80 if ctx.tier == "quick" else 800)
+        # the semantics of the fragment (model/FragSem.v, theorem C01_frag_semantics) against the real rewriter, CPython and the real runtime
+        ksem = rwfrag.check_sem(ctx, rng, 60 if ctx.tier == "quick" else 800)
     return {
         "evaluations": len(cases), "distinct_nontrivial": len({lib.digest(c) for c, im in zip(cases, impl) if im.get("handler_calls", 0) >= 3}),
         "rule": "generated programs (prelude with helper functions/classes + 2-4 generated statements: assignments, calls, loops with break/continue/else, "
@@ -185,7 +191,8 @@ def run(ctx, model_ok, deferred=False, only_deferred=False, n_quick=120, extra_c
                          "programs_raising": sum(1 for im in impl if "exc" in im.get("plain", {})),
                          "certificates_checked": len(cert_rows), "certificates_ok": certs_ok,
                          "rewritten_nodes_total": sum(im.get("out_nodes", 0) for im in impl),
-                         "k_syn_fragment_programs": ksyn[0], "k_syn_tree_equal": ksyn[1]},
+                         "k_syn_fragment_programs": ksyn[0], "k_syn_tree_equal": ksyn[1],
+                         "k_sem_fragment_programs": ksem[0], "k_sem_agreeing": ksem[1], "k_sem_detail": ksem[2]},
         "failures": failures, "extra": {"certificate_failures": len(certs_bad)},
     }
 
